@@ -97,7 +97,7 @@ TOLERANCES = {
     "gradient-filter-difference": 1e-13,   # scaled
     "chain-after-kwargs": 1e-13,   # scaled
 }
-TIMEOUT = 300
+TIMEOUT = 600
 
 LAM_ILLUM = 0.532
 N_MED = 1.33
